@@ -1,5 +1,8 @@
 """Path context and path-exploration engine (re-execution under decision scripts)."""
+import os
 import time
+
+from . import limits
 
 import z3
 
@@ -93,12 +96,19 @@ class PathCtx(object):
 
     def _sat(self, extra):
         s = z3.Solver()
-        s.set("timeout", BRANCH_TIMEOUT_MS)
         for c in self.pc:
             s.add(c)
         s.add(extra)
         t0 = time.time()
-        r = s.check()
+        r = limits.check(s, BRANCH_TIMEOUT_MS)      # CPU budget (load-independent), see pyvc/limits.py
+        if os.environ.get("VERIF_RLSTATS"):
+            try:
+                st = s.statistics()
+                rl = [st.get_key_value(k) for k in st.keys() if k == "rlimit count"]
+                with open(os.environ["VERIF_RLSTATS"], "a") as fh:
+                    fh.write("branch %.4f %d %s\n" % (time.time() - t0, rl[0] if rl else 0, r))
+            except Exception:
+                pass
         self.engine.stats.branch_queries += 1
         self.engine.stats.branch_time += time.time() - t0
         return r != z3.unsat  # unknown counts as feasible
